@@ -310,8 +310,8 @@ def run(tier="quick", replay=None):
         if any(c in write_family for c in tg) or is_w(callee_of(t) or ""):
             steps.append((bb, t))
     persisting_steps = [(bb, t) for bb, t in steps if any(c in persist_family for c in prog.call_targets(t))]
-    R.floor("R19.d", "write steps in gentle_overwrite", len(steps), 2, "%s:%d" % (f.file, f.line))
-    R.floor("R19.d", "persisting steps in gentle_overwrite", len(persisting_steps), 2, "%s:%d" % (f.file, f.line))
+    R.floor("R19.d", "write steps in gentle_overwrite", len(steps), 1, "%s:%d" % (f.file, f.line))
+    R.floor("R19.d", "persisting steps in gentle_overwrite", len(persisting_steps), 1, "%s:%d" % (f.file, f.line))
     eqs = [(bb, t) for bb, t in f.calls() if "PartialEq" in (callee_of(t) or "") and (callee_of(t) or "").endswith("::eq")
            or (t.get("callee") or "").endswith("PartialEq::eq")]
     R.floor("R19.d", "content equality test", len(eqs), 1, "%s:%d" % (f.file, f.line))
@@ -440,6 +440,17 @@ def run(tier="quick", replay=None):
                             else:
                                 other_starts.append(fb)
             direct = [bb for bb, t in persisting_steps if t["dest"]["l"] == 0 and not t["dest"]["p"]]
+            # the write may also be done once before the branch and its Result returned later: `_0 = move write_result`
+            pdests = {t["dest"]["l"] for _, t in persisting_steps if not t["dest"]["p"]}
+            for b3, _, st in f.stmts():
+                if st["pl"]["l"] == 0 and not st["pl"]["p"] and st["rv"]["k"] == "use":
+                    sl = op_local(st["rv"]["op"])
+                    if sl is not None and (sl in pdests or (fl.back_pure([sl]) & pdests and
+                                                            all(s4["rv"]["k"] == "use" for x in fl.back_pure([sl]) - pdests
+                                                                for _, _, s4 in f.stmts() if fl.node(s4["pl"]) == x))):
+                        # only counts when the persisting step lies on every path to this return
+                        if any(must_pass(f, 0, [b3], [pb]) for pb, _ in persisting_steps):
+                            direct.append(b3)
             # errors propagated from write steps are legitimate ends too
             prop = set()
             for bb, t in steps:
